@@ -1051,3 +1051,19 @@ impl<I: Iterator> Iterator for Hinted<I> {
         }
     }
 }
+
+
+/// runs `f` on another thread and returns its result (a panic is re-raised here): objects built on
+/// one thread are used on another, as a simulation engine hands decoders to its workers. The other
+/// thread belongs to a small pool kept for this purpose (spawning a thread per call costs too much
+/// under load); nothing is ever constructed on those threads, they only use what they are handed.
+pub fn on_other_thread<R: Send>(f: impl FnOnce() -> R + Send) -> R {
+    static POOL: std::sync::OnceLock<Option<rayon::ThreadPool>> = std::sync::OnceLock::new();
+    match POOL.get_or_init(|| rayon::ThreadPoolBuilder::new().num_threads(8).thread_name(|i| format!("moved-to-{i}")).build().ok()) {
+        Some(pool) => pool.install(f),
+        None => match std::thread::scope(|s| s.spawn(f).join()) {
+            Ok(r) => r,
+            Err(e) => std::panic::resume_unwind(e),
+        },
+    }
+}
